@@ -168,7 +168,7 @@ func Scope() map[string]cty.Value {
 		"ns":  cty.NullVal(cty.String),
 		"l":   cty.ListVal([]cty.Value{cty.NumberIntVal(1), cty.NumberIntVal(2)}),
 		"ls":  cty.ListVal([]cty.Value{cty.StringVal("a"), cty.StringVal("b")}),
-		"le":  cty.ListValEmpty(cty.String),
+		"le":  cty.ListValEmpty(cty.Object(map[string]cty.Type{"a": cty.Number})),
 		"t":   cty.TupleVal([]cty.Value{cty.NumberIntVal(1), cty.StringVal("a")}),
 		"o":   cty.ObjectVal(map[string]cty.Value{"a": cty.NumberIntVal(1), "b": cty.StringVal("x")}),
 		"m":   cty.MapVal(map[string]cty.Value{"a": cty.StringVal("x"), "b": cty.StringVal("y")}),
